@@ -379,9 +379,8 @@ impl<'a> Run<'a> {
             "tick" => {
                 let f = &a["fetch"];
                 let resp: Option<Result<Vec<ScionPath>, String>> = match f["k"].as_str() {
-                    Some("ok") => Some(Ok(f["paths"]
-                        .as_array()
-                        .unwrap()
+                    Some("ok") => Some(Ok(f.get("paths").or_else(|| f.get("ps")).and_then(|v| v.as_array())
+                        .expect("fetch.paths")
                         .iter()
                         .map(|p| {
                             let e = p["exp"].as_i64().unwrap();
@@ -392,12 +391,21 @@ impl<'a> Run<'a> {
                     Some("err") => Some(Err("scripted failure".into())),
                     _ => None,
                 };
+                let now = self.st();
+                // score every returned path would get as a NEW candidate at this instant (cached issues applied);
+                // logged for trace validation (ranking/merge are validated against logged scores)
+                let mut cand = serde_json::Map::new();
+                if let Some(Ok(ps)) = &resp {
+                    for p in ps {
+                        let sc = catch(|| self.vps.probe_candidate_score(p, now)).unwrap_or(f32::NAN);
+                        cand.insert(self.uni.id_of(&p.fingerprint()).to_string(), json!((sc as f64 * 10000.0).round() as i64));
+                    }
+                }
                 let calls0 = {
                     let mut g = self.script.lock().unwrap();
                     g.next = resp;
                     g.calls
                 };
-                let now = self.st();
                 let r = catch(|| poll_once(self.vps.maintain(now)));
                 let fetched = self.script.lock().unwrap().calls > calls0;
                 self.script.lock().unwrap().next = None;
@@ -414,7 +422,7 @@ impl<'a> Run<'a> {
                         if let Some(why) = exit {
                             self.dead = Some(format!("exit:{why}"));
                         }
-                        json!({"k": "done", "fetched": fetched, "exit": exit})
+                        json!({"k": "done", "fetched": fetched, "exit": exit, "cand": cand})
                     }
                 }
             }
@@ -515,7 +523,14 @@ impl<'a> Run<'a> {
         let o = self.apply(a);
         let poisoned = o["k"] == "panic" && self.dead.is_some();
         let s = if poisoned { Value::Null } else { catch(|| self.state()).unwrap_or(Value::Null) };
-        json!({"a": a, "o": o, "s": s})
+        let mut r = json!({"a": a, "o": o, "s": s});
+        // a send is observed through both public hand-out functions: cached_path (o) and, once the
+        // set is initialised (so that it cannot block), path() as used by PathManager::path_wait (o2)
+        if a["a"] == "send" && a.get("via").is_none() && s["init"] == true {
+            let o2 = self.apply(&json!({"a": "send", "via": "path"}));
+            r["o2"] = o2;
+        }
+        r
     }
 }
 
